@@ -224,6 +224,7 @@ class Program:
         self._aliases = []
         for m in self.modules.values():
             self._index(m)
+        self._normalise_pending = os.environ.get("PCSTATIC_NORMALISE") is not None  # experimental, off: see DESIGN 0.8
         for ci, name, m, target in self._aliases:
             fi = self.resolve_function(target, m)
             if fi is not None and name not in ci.methods:
@@ -231,6 +232,29 @@ class Program:
                 alias.name = name
                 ci.methods[name] = alias
                 self.functions[alias.qualname] = alias
+        self.normalise()
+
+    def normalise(self):
+        """Read every function of the reference tree with the helpers *newer than the rules* that it calls at statement
+        level folded back into its body (astutil.inline_new_helpers): the rules that read statements then see the shape
+        they were written for.  A no-op on a tree without such helpers."""
+        if not getattr(self, "_normalise_pending", False):
+            return
+        self._normalise_pending = False
+        from .astutil import inline_new_helpers
+
+        if not any(self.is_new_function(f) for f in self.functions.values()):
+            return
+        for fi in list(self.functions.values()):
+            if self.is_new_function(fi) or fi.parent is not None:
+                continue
+            try:
+                node = inline_new_helpers(self, fi)
+            except RecursionError:
+                continue
+            if ast.dump(node) != ast.dump(fi.node):
+                fi.original_node = fi.node
+                fi.node = node
 
     # ------------------------------------------------------------------ indexing
     def _index(self, m):
